@@ -365,7 +365,9 @@ def init_arrays(draw):
     nx = draw(st.integers(3, 10))
     dt = draw(st.sampled_from(DTYPES))
     maxlab = int(min(np.iinfo(dt).max, 300))
-    lab = st.one_of(st.integers(1, 6), st.integers(1, maxlab))
+    # labels incl. the largest value of the dtype (255 in uint8, 127 in int8)
+    lab = st.one_of(st.integers(1, 6), st.integers(1, maxlab),
+                    st.sampled_from([maxlab, max(1, maxlab - 1)]))
     if kind == 'paint':
         n = draw(st.integers(0, 6))
         rects = []
